@@ -216,7 +216,7 @@ example : (match Cal.computeGregorian ⟨0, 37⟩ .TAI with | .ok f => decide (f
 
 /-- the counterexample of the full statement: 1900-01-01T00:00:00 TAI -/
 theorem iso8601_equals_display_counterexample :
-    formatterOutput ⟨fun _ => 0, fun _ => none⟩ iso8601 ⟨⟨0, 0⟩, .TAI⟩ none ≠ Cal.display ⟨0, 0⟩ .TAI := by
+    formatterOutput ⟨fun _ => none, fun _ => []⟩ iso8601 ⟨⟨0, 0⟩, .TAI⟩ none ≠ Cal.display ⟨0, 0⟩ .TAI := by
   decide +kernel
 
 /-! ### parse back -/
@@ -300,7 +300,7 @@ theorem rfc3339_parses_back (O : Oracles) (e : Ep) (off : Dur)
   exact ⟨f, t, hf, ht⟩
 
 def fmtOf (s : String) : Format := match formatFromStr (Cal.strCodes s) with | .ok f => f | _ => ⟨[]⟩
-def O0 : Oracles := ⟨fun _ => 0, fun _ => none⟩
+def O0 : Oracles := ⟨fun _ => none, fun _ => []⟩
 def backOf (s : String) (e : Ep) : Res Ep :=
   match formatterOutput O0 (fmtOf s) e none with
   | .ok t => formatParse O0 (fmtOf s) t
